@@ -243,10 +243,10 @@ fn part_scalars(run: &Run) {
     run.sample(json!({"part": "a-scalars", "scalar": "U+10FFFF", "text_string_bytes": match text_string("\u{10ffff}") { Object::String(b, _) => hex(&b), _ => String::new() }}));
 }
 
-const TEXT_ALPHABET: [u32; 14] = [0x41, 0x09, 0x0a, 0x0d, 0x00, 0x7f, 0x80, 0xff, 0x100, 0xfeff, 0xfffd, 0xffff, 0x10000, 0x10ffff];
+const TEXT_ALPHABET: [u32; 15] = [0x41, 0x09, 0x0a, 0x0d, 0x00, 0x1b, 0x7f, 0x80, 0xff, 0x100, 0xfeff, 0xfffd, 0xffff, 0x10000, 0x10ffff];
 
 fn part_strings(run: &Run) {
-    let idx: [u8; 14] = [0, 1, 2, 3, 4, 5, 6, 7, 8, 9, 10, 11, 12, 13];
+    let idx: [u8; 15] = [0, 1, 2, 3, 4, 5, 6, 7, 8, 9, 10, 11, 12, 13, 14];
     let mut list: Vec<Vec<u32>> = vec![];
     let max_len = if run.thorough { 5 } else { 3 };
     for len in 0..=max_len {
@@ -269,6 +269,51 @@ fn part_strings(run: &Run) {
     run.nontrivial(list.len() as u64 * 3);
     run.add(if run.thorough { "strings_le5" } else { "strings_le3" }, list.len() as u64);
     run.sample(json!({"part": "a-strings", "scalars": list[list.len() - 1], "alphabet": TEXT_ALPHABET}));
+}
+
+/// Strings shaped like the language escape sequences of ISO 32000-1 7.9.2.2 (ESC, language code,
+/// optional country code, ESC). `text_string` takes *any* Unicode string, so such text must come
+/// back unchanged like every other string: ESC + w + ESC for every w over {a, Z, 1, e-acute}^k,
+/// k = 0..5, alone and embedded in ASCII and non-ASCII text, and two sequences in one string.
+fn part_escapes(run: &Run) {
+    let letters: [char; 4] = ['a', 'Z', '1', '\u{e9}'];
+    let idx: [u8; 4] = [0, 1, 2, 3];
+    let contexts: [(&str, &str); 8] = [
+        ("", ""),
+        ("A", "B"),
+        ("x", ""),
+        ("", "x"),
+        ("\u{e9}", ""),
+        ("", "\u{e9}"),
+        ("caf\u{e9} ", " ol\u{e9}"),
+        ("\u{1b}", "\u{1b}"),
+    ];
+    let mut list: Vec<String> = vec![];
+    for k in 0..=5 {
+        for t in tuples(&idx, k) {
+            let w: String = t.iter().map(|i| letters[*i as usize]).collect();
+            for (pre, post) in contexts {
+                list.push(format!("{}\u{1b}{}\u{1b}{}", pre, w, post));
+            }
+            // two sequences in one text, and an unterminated one
+            list.push(format!("\u{1b}{}\u{1b}t\u{1b}{}\u{1b}", w, w));
+            list.push(format!("\u{e9}\u{1b}{}", w));
+        }
+    }
+    let chunk = 256;
+    util::par_for(list.len().div_ceil(chunk), |c| {
+        for s in &list[c * chunk..((c + 1) * chunk).min(list.len())] {
+            for via in ["text_string", "utf16", "utf8"] {
+                if let Some(m) = check_text(s, via) {
+                    report_text(run, "escapes", s, via, &m);
+                }
+            }
+        }
+    });
+    run.eval(list.len() as u64 * 3);
+    run.nontrivial(list.len() as u64 * 3);
+    run.add("escape_shaped_strings", list.len() as u64);
+    run.sample(json!({"part": "a-escapes", "scalars": scalars_of(&list[list.len() / 2]), "rule": "ESC + w + ESC, w over {a,Z,1,U+00E9}^k, k=0..5, in 8 contexts + doubled + unterminated"}));
 }
 
 const BOM_ALPHABET: [u8; 9] = [0xfe, 0xff, 0xef, 0xbb, 0xbf, 0x00, 0x41, 0xd8, 0xdc];
@@ -690,6 +735,214 @@ fn part_extraction(run: &Run, repertoires: &[(String, Vec<u8>)]) {
 }
 
 // ---------------------------------------------------------------------------------------------
+// (c') several pages, each with its own Resources dictionary and its own font named /F1
+
+#[derive(Clone, Debug)]
+struct PageSpec {
+    table: String,
+    blocks: Vec<Block>,
+}
+
+fn pages_to_json(pages: &[PageSpec]) -> Value {
+    Value::Array(pages.iter().map(|p| json!({"table": p.table, "blocks": blocks_to_json(&p.blocks)})).collect())
+}
+
+fn pages_from_json(v: &Value) -> Vec<PageSpec> {
+    v.as_array()
+        .map(|a| a.iter().map(|p| PageSpec { table: p["table"].as_str().unwrap_or("").to_string(), blocks: blocks_from_json(&p["blocks"]) }).collect())
+        .unwrap_or_default()
+}
+
+fn content_of(blocks: &[Block]) -> Vec<u8> {
+    let mut ops = vec![];
+    for b in blocks {
+        let fmt = if b.hex { StringFormat::Hexadecimal } else { StringFormat::Literal };
+        let s = Object::String(b.bytes.clone(), fmt);
+        ops.push(Operation::new("BT", vec![]));
+        ops.push(Operation::new("Tf", vec![Object::Name(b"F1".to_vec()), Object::Integer(12)]));
+        ops.push(Operation::new("Td", vec![Object::Integer(100), Object::Integer(600)]));
+        if b.tj_array {
+            ops.push(Operation::new("TJ", vec![Object::Array(vec![s])]));
+        } else {
+            ops.push(Operation::new("Tj", vec![s]));
+        }
+        ops.push(Operation::new("ET", vec![]));
+    }
+    Content { operations: ops }.encode().expect("encode")
+}
+
+/// One page per entry. Every page has its own /Resources (odd pages: a direct dictionary, even
+/// pages: a reference) whose /Font dictionary names that page's font /F1; the Pages node has none.
+fn multi_doc(pages: &[PageSpec], compress: bool) -> Document {
+    let mut doc = Document::with_version("1.5");
+    let pages_id = doc.new_object_id();
+    let mut kids = vec![];
+    for (i, p) in pages.iter().enumerate() {
+        let font_id = doc.add_object(font_dict(&p.table));
+        let mut fonts = Dictionary::new();
+        fonts.set("F1", Object::Reference(font_id));
+        let mut res = Dictionary::new();
+        res.set("Font", Object::Dictionary(fonts));
+        let content_id = doc.add_object(Stream::new(Dictionary::new(), content_of(&p.blocks)));
+        let mut page = Dictionary::new();
+        page.set("Type", Object::Name(b"Page".to_vec()));
+        page.set("Parent", Object::Reference(pages_id));
+        page.set("Contents", Object::Reference(content_id));
+        if i % 2 == 0 {
+            page.set("Resources", Object::Dictionary(res));
+        } else {
+            let rid = doc.add_object(res);
+            page.set("Resources", Object::Reference(rid));
+        }
+        kids.push(Object::Reference(doc.add_object(page)));
+    }
+    let mut node = Dictionary::new();
+    node.set("Type", Object::Name(b"Pages".to_vec()));
+    node.set("Count", Object::Integer(kids.len() as i64));
+    node.set("Kids", Object::Array(kids));
+    node.set("MediaBox", Object::Array(vec![0.into(), 0.into(), 595.into(), 842.into()]));
+    doc.objects.insert(pages_id, Object::Dictionary(node));
+    let mut cat = Dictionary::new();
+    cat.set("Type", Object::Name(b"Catalog".to_vec()));
+    cat.set("Pages", Object::Reference(pages_id));
+    let cat_id = doc.add_object(cat);
+    doc.trailer.set("Root", Object::Reference(cat_id));
+    if compress {
+        doc.compress();
+    }
+    doc
+}
+
+fn extract_pages(doc: &Document, order: &[u32]) -> Result<String, String> {
+    match util::guard(|| doc.extract_text(order)) {
+        Ok(Ok(s)) => Ok(s),
+        Ok(Err(e)) => Err(format!("extract_text error: {}", e)),
+        Err(p) => Err(format!("extract_text {}", p)),
+    }
+}
+
+/// extract_text(order) == the expected text of the listed pages in that order, each page decoded
+/// with the table of *its own* font, on the built document and after save+load in both formats.
+fn check_multi(pages: &[PageSpec], orders: &[Vec<u32>], compress: bool) -> (u64, Option<String>) {
+    let mut per_page = vec![];
+    for p in pages {
+        match expected_extraction(&p.table, &p.blocks) {
+            Ok(w) => per_page.push(w),
+            Err(m) => return (0, Some(m)),
+        }
+    }
+    let doc = multi_doc(pages, compress);
+    let mut n = 0;
+    let stages: [(&str, Option<bool>); 3] = [("built document", None), ("after save (table) + load", Some(true)), ("after save (stream) + load", Some(false))];
+    for (label, fmt) in stages {
+        let d = match fmt {
+            None => doc.clone(),
+            Some(t) => match util::save_bytes(&doc, t).and_then(|b| util::load(&b)) {
+                Ok(d) => d,
+                Err(e) => return (n, Some(format!("{}: {}", label, e))),
+            },
+        };
+        for order in orders {
+            let want: String = order.iter().map(|p| per_page[*p as usize - 1].as_str()).collect();
+            n += 1;
+            match extract_pages(&d, order) {
+                Err(e) => return (n, Some(format!("{}, pages {:?}: {}", label, order, e))),
+                Ok(got) if got != want => {
+                    let at = got.chars().zip(want.chars()).position(|(a, b)| a != b).unwrap_or(got.chars().count().min(want.chars().count()));
+                    let g: String = got.chars().skip(at.saturating_sub(3)).take(12).collect();
+                    let w: String = want.chars().skip(at.saturating_sub(3)).take(12).collect();
+                    return (
+                        n,
+                        Some(format!(
+                            "{}, extract_text(&{:?}) (page tables {:?}): differs at character {}: got ..{:?} = {:x?}, expected ..{:?} = {:x?}",
+                            label,
+                            order,
+                            pages.iter().map(|p| p.table.as_str()).collect::<Vec<_>>(),
+                            at,
+                            g,
+                            scalars_of(&g),
+                            w,
+                            scalars_of(&w)
+                        )),
+                    );
+                }
+                Ok(_) => {}
+            }
+        }
+    }
+    (n, None)
+}
+
+fn run_multi(run: &Run, part: &str, pages: &[PageSpec], orders: &[Vec<u32>], compress: bool) {
+    let (n, r) = check_multi(pages, orders, compress);
+    run.eval(n);
+    if let Some(m) = r {
+        run.fail(
+            None,
+            json!({"kind": "multi", "part": part, "pages": pages_to_json(pages), "orders": orders, "compress": compress}),
+            &m,
+            "extract_text(pages) == for every listed page, in order, the text decoded with that page's own font encoding (+ the space after a TJ array, the line feed at ET)",
+        );
+    }
+}
+
+fn part_multipage(run: &Run, repertoires: &[(String, Vec<u8>)]) {
+    // what each table makes of each byte (None = not in the repertoire)
+    let cell = |ti: usize, b: u8| -> Option<String> { with_encoding(&repertoires[ti].0, |e| dec(e, &[b])).ok().and_then(|r| r.ok()).filter(|s| !s.is_empty()) };
+    let cells: Vec<Vec<Option<String>>> = (0..repertoires.len()).map(|ti| (0..=255u8).map(|b| cell(ti, b)).collect()).collect();
+    // bytes of table a's repertoire that table b decodes differently (or not at all)
+    let differing = |a: usize, b: usize| -> Vec<u8> { repertoires[a].1.iter().cloned().filter(|&x| cells[a][x as usize] != cells[b][x as usize]).collect() };
+    let page_for = |a: usize, other: usize| -> PageSpec {
+        let mut blocks = vec![];
+        let d = differing(a, other);
+        if !d.is_empty() {
+            blocks.push(Block { bytes: d.clone(), tj_array: false, hex: false });
+            blocks.push(Block { bytes: d, tj_array: true, hex: true });
+        }
+        blocks.push(Block { bytes: repertoires[a].1.clone(), tj_array: false, hex: false });
+        PageSpec { table: repertoires[a].0.clone(), blocks }
+    };
+    let n = repertoires.len();
+    let mut docs: Vec<(Vec<PageSpec>, Vec<Vec<u32>>)> = vec![];
+    let mut diff_info = serde_json::Map::new();
+    for a in 0..n {
+        for b in 0..n {
+            if a == b {
+                continue;
+            }
+            diff_info.insert(format!("{} vs {}", repertoires[a].0, repertoires[b].0), json!(differing(a, b).len()));
+            docs.push((vec![page_for(a, b), page_for(b, a)], vec![vec![1, 2], vec![2, 1], vec![1], vec![2], vec![2, 1, 2]]));
+        }
+    }
+    // the same table on both pages (the cached entry is the right one by luck): control cases
+    for a in 0..n {
+        docs.push((vec![page_for(a, a), page_for(a, a)], vec![vec![1, 2], vec![2, 1]]));
+    }
+    // one document with all five, every order of the five pages
+    if n >= 2 {
+        let pages: Vec<PageSpec> = (0..n).map(|a| page_for(a, (a + 1) % n)).collect();
+        let orders: Vec<Vec<u32>> = (0..vharness::gen::factorial(n)).map(|i| vharness::gen::nth_permutation(n, i).iter().map(|p| *p as u32 + 1).collect()).collect();
+        docs.push((pages, orders));
+    }
+    let extracts = AtomicU64::new(0);
+    util::par_for(docs.len() * 2, |i| {
+        let (pages, orders) = &docs[i / 2];
+        let compress = i % 2 == 1;
+        extracts.fetch_add(orders.len() as u64 * 3, Ordering::Relaxed);
+        run_multi(run, "multipage", pages, orders, compress);
+    });
+    run.nontrivial(docs.len() as u64 * 2);
+    run.add("extraction_docs", docs.len() as u64 * 2);
+    run.add("multipage_docs", docs.len() as u64 * 2);
+    run.add("multipage_extract_calls", extracts.load(Ordering::Relaxed));
+    run.set("multipage_differing_bytes", Value::Object(diff_info));
+    if let Some((pages, orders)) = docs.first() {
+        run.sample(json!({"part": "c-multipage", "page_tables": pages.iter().map(|p| p.table.clone()).collect::<Vec<_>>(), "orders": orders,
+                          "page_1_first_block": hex(&pages[0].blocks[0].bytes), "resources": "own dictionary per page, font named /F1 on every page"}));
+    }
+}
+
+// ---------------------------------------------------------------------------------------------
 
 fn main() {
     let run = Run::from_args("C16", "exploration");
@@ -701,10 +954,13 @@ fn main() {
     }
     run.rule(
         "complete enumerations: every Unicode scalar value as a one-character string x {text_string, encode_utf16_be, encode_utf8}; all \
-         strings of length <=3 (thorough: <=5) over the 14-character alphabet x the same three encoders; all byte strings of length \
+         strings of length <=3 (thorough: <=5) over the 15-character alphabet x the same three encoders; all byte strings of length \
          <=5 (thorough: <=7) over {FE,FF,EF,BB,BF,00,41,D8,DC} (totality); 5 tables x 256 bytes (+ the 256-byte string both ways, + \
          the published cells; thorough: + all byte pairs); extraction documents = table x repertoire byte x {Tj literal, Tj hex, TJ} \
-         + whole repertoire + ordered pairs of repertoire bytes (thorough: all; quick: a seed-rotated slice). All cases \
+         + whole repertoire + ordered pairs of repertoire bytes (thorough: all; quick: a seed-rotated slice) + multi-page documents \
+         (every ordered pair of the five encodings and one five-page document, each page with its own Resources and a font named \
+         /F1, showing the bytes the two tables decode differently and the whole repertoire, extracted in several page orders \
+         in one call); escape-shaped strings ESC w ESC, w over {a,Z,1,U+00E9}^k, k<=5, in 8 contexts. All cases \
          count as non-trivial except totality strings over {00,41}; distinct by construction",
     );
     run.assume("the published tables are those written into this check: Microsoft cp1252 and Apple Mac OS Roman as shipped with Python's codecs, PDFDocEncoding per ISO 32000-1 Annex D.2; compared only on 0x20-0x7E and on the Latin-1 characters U+00A1-U+00FF; cells whose published value differs between the glyph-name and the code-page convention are excluded and listed under coverage.tables");
@@ -712,9 +968,11 @@ fn main() {
     run.assume("the tables are private to lopdf; they are read through Dictionary::get_font_encoding + Document::decode_text / encode_text");
     part_scalars(&run);
     part_strings(&run);
+    part_escapes(&run);
     part_totality(&run);
     let reps = part_tables(&run);
     part_extraction(&run, &reps);
+    part_multipage(&run, &reps);
     run.set("exhaustive_parts", json!({"scalars": true, "strings": true, "totality": true, "table_cells": true, "extraction_single_bytes": true, "extraction_pairs": run.thorough}));
     run.exhaustive(true);
     run.finish();
@@ -762,6 +1020,18 @@ fn replay(run: &Run, path: &std::path::Path) -> ! {
                 }
             }
         },
+        Some("multi") => {
+            let pages = pages_from_json(&case["pages"]);
+            let orders: Vec<Vec<u32>> = case["orders"].as_array().map(|a| a.iter().map(|o| o.as_array().map(|x| x.iter().map(|v| v.as_u64().unwrap_or(1) as u32).collect()).unwrap_or_default()).collect()).unwrap_or_default();
+            let compress = case["compress"].as_bool().unwrap_or(false);
+            let a = check_multi(&pages, &orders, compress).1;
+            let b = check_multi(&pages, &orders, compress).1;
+            if a != b {
+                eprintln!("MACHINERY: replay not deterministic: {:?} vs {:?}", a, b);
+                std::process::exit(3);
+            }
+            a
+        }
         Some("extract") => {
             let table = case["table"].as_str().unwrap_or("");
             let blocks = blocks_from_json(&case["blocks"]);
